@@ -20,39 +20,47 @@ theorem Good.weaken {cfg : Config} {d : Option (Bytes × Nat)} {c : Nat} {req : 
     (h : Good cfg none c req x r) : Good cfg d c req x r :=
   ⟨h.inv, h.out.mono (fun _ ho => J.weaken ho), h.resp, h.auth⟩
 
-theorem k_add_ne : k "change" ≠ k "add" ∧ k "set" ≠ k "add" ∧ k "call" ≠ k "add" := by decide +kernel
-
 theorem handleMethod_good {cfg : Config} {x : Ctx} {p : Peer} {req : Json} {m : Bytes} {d : Option (Bytes × Nat)}
     (h : FInv cfg x.st) (hp : findPeer x.st.peers p.conn = some p) (hd : m = k "add" → d = addDecl cfg req) :
     Good cfg d p.conn req x (handleMethod cfg x p req m) := by
   unfold handleMethod
-  split
-  · exact changeState_good h
-  · split
-    · exact setOrCall_good h
-    · split
-      · exact setOrCall_good h
-      · split
-        · rename_i hm
-          rw [hd (by simpa using hm)]
-          exact addElement_good h
-        · split
-          · exact removeElementReq_good h hp
-          · split
-            · exact fetchReq_good h hp
-            · split
-              · exact unfetchReq_good h
-              · split
-                · exact getReq_good h
-                · split
-                  · exact configReq_good h
-                  · split
-                    · exact infoReq_good h
-                    · split
-                      · exact authenticateReq_good h hp
-                      · split
-                        · exact passwdReq_good h
-                        · exact Good.err h _ _ _
+  by_cases h1 : (m == k "change") = true
+  · rw [if_pos h1]; exact changeState_good h
+  rw [if_neg h1]
+  by_cases h2 : (m == k "set") = true
+  · rw [if_pos h2]; exact setOrCall_good h
+  rw [if_neg h2]
+  by_cases h3 : (m == k "call") = true
+  · rw [if_pos h3]; exact setOrCall_good h
+  rw [if_neg h3]
+  by_cases h4 : (m == k "add") = true
+  · rw [if_pos h4, hd (eq_of_beq h4)]; exact addElement_good h
+  rw [if_neg h4]
+  by_cases h5 : (m == k "remove") = true
+  · rw [if_pos h5]; exact removeElementReq_good h hp
+  rw [if_neg h5]
+  by_cases h6 : (m == k "fetch") = true
+  · rw [if_pos h6]; exact fetchReq_good h hp
+  rw [if_neg h6]
+  by_cases h7 : (m == k "unfetch") = true
+  · rw [if_pos h7]; exact unfetchReq_good h
+  rw [if_neg h7]
+  by_cases h8 : (m == k "get") = true
+  · rw [if_pos h8]; exact getReq_good h
+  rw [if_neg h8]
+  by_cases h9 : (m == k "config") = true
+  · rw [if_pos h9]; exact configReq_good h
+  rw [if_neg h9]
+  by_cases h10 : (m == k "info") = true
+  · rw [if_pos h10]; exact infoReq_good h
+  rw [if_neg h10]
+  by_cases h11 : (m == k "authenticate") = true
+  · rw [if_pos h11]; exact authenticateReq_good h hp
+  rw [if_neg h11]
+  by_cases h12 : (m == k "passwd") = true
+  · rw [if_pos h12]; exact passwdReq_good h
+  rw [if_neg h12]
+  exact Good.err h _ _ _
 
 /-- what a unit guarantees -/
 structure UGood (cfg : Config) (d : Option (Bytes × Nat)) (c : Nat) (req : Json) (x x' : Ctx) : Prop where
@@ -100,7 +108,11 @@ theorem parseJsonRpc_good {cfg : Config} {x : Ctx} {c : Nat} {req : Json} (h : F
       | str m =>
         simp only
         have hd : m = k "add" → declOf cfg req = addDecl cfg req := by
-          intro hm'; simp [declOf, hm, hm']
+          intro hm'
+          unfold declOf
+          rw [hm]
+          simp only
+          rw [if_pos (by rw [hm']; exact beq_self_eq_true _)]
         exact sendResponse_good (handleMethod_good h hp hd)
       | _ => exact sendResponse_good (r := (x, _)) (Good.err h _ _ _)
 
@@ -206,17 +218,17 @@ theorem step_chain (cfg : Config) (s : State) (op : Op) (x : Ctx) (hx : opCtx s 
   cases op with
   | connect c ws il a => cases hx
   | message c msg o =>
-    unfold opCtx at hx
-    unfold unitsOf step
-    split at hx
-    · cases hx
-    · rename_i hnone
+    simp only [opCtx] at hx
+    simp only [unitsOf, step]
+    by_cases hnone : (findPeer s.peers c).isNone = true
+    · rw [if_pos hnone] at hx; cases hx
+    · rw [if_neg hnone] at hx
       cases hx
-      simp only [hnone, if_false, Bool.false_eq_true]
+      rw [if_neg hnone, if_neg hnone]
       have hch := msgUnits_chain cfg c msg (mkCtx s o)
       cases hok : (parseMessage cfg (mkCtx s o) c msg).2 with
       | true =>
-        refine ⟨_, by simpa using hch, ?_⟩
+        refine ⟨(parseMessage cfg (mkCtx s o) c msg).1, by simpa using hch, ?_⟩
         simp [hok]
       | false =>
         refine ⟨closePeer (parseMessage cfg (mkCtx s o) c msg).1 c, ?_, ?_⟩
@@ -224,13 +236,13 @@ theorem step_chain (cfg : Config) (s : State) (op : Op) (x : Ctx) (hx : opCtx s 
           exact hch.append (Chain.single cfg (.close _ c))
         · simp [hok]
   | disconnect c o =>
-    unfold opCtx at hx
-    unfold unitsOf step
-    split at hx
-    · cases hx
-    · rename_i hnone
+    simp only [opCtx] at hx
+    simp only [unitsOf, step]
+    by_cases hnone : (findPeer s.peers c).isNone = true
+    · rw [if_pos hnone] at hx; cases hx
+    · rw [if_neg hnone] at hx
       cases hx
-      simp only [hnone, if_false, Bool.false_eq_true]
+      rw [if_neg hnone, if_neg hnone]
       exact ⟨_, Chain.single cfg (.close (mkCtx s o) c), rfl⟩
   | timerFire t o =>
     cases hx
@@ -242,22 +254,22 @@ theorem step_noctx (cfg : Config) (s : State) (op : Op) (hx : opCtx s op = none)
         (step cfg s op).1 = { s with peers := s.peers ++ [{ conn := c, ws := ws, isLocal := il, addrTok := a }] }) := by
   cases op with
   | connect c ws il a =>
-    unfold step unitsOf
+    simp only [step, unitsOf]
     cases hf : findPeer s.peers c with
     | some p => simp
-    | none => exact ⟨by simp, rfl, Or.inr ⟨c, ws, il, a, rfl, rfl, by simp⟩⟩
+    | none => exact ⟨by simp, trivial, Or.inr ⟨c, ws, il, a, rfl, hf, by simp⟩⟩
   | message c msg o =>
-    unfold opCtx at hx
-    unfold step unitsOf
-    split at hx
-    · rename_i h; simp [h]
-    · cases hx
+    simp only [opCtx] at hx
+    simp only [step, unitsOf]
+    by_cases hnone : (findPeer s.peers c).isNone = true
+    · rw [if_pos hnone, if_pos hnone]; exact ⟨rfl, rfl, Or.inl rfl⟩
+    · rw [if_neg hnone] at hx; cases hx
   | disconnect c o =>
-    unfold opCtx at hx
-    unfold step unitsOf
-    split at hx
-    · rename_i h; simp [h]
-    · cases hx
+    simp only [opCtx] at hx
+    simp only [step, unitsOf]
+    by_cases hnone : (findPeer s.peers c).isNone = true
+    · rw [if_pos hnone, if_pos hnone]; exact ⟨rfl, rfl, Or.inl rfl⟩
+    · rw [if_neg hnone] at hx; cases hx
   | timerFire t o => cases hx
 
 /-! ## lifting along a chain -/
@@ -325,7 +337,7 @@ theorem Inv.connect {cfg : Config} {s : State} (h : Inv cfg s) (c : Nat) (ws il 
     have := (findPeer_isSome_iff s.peers c).mpr hc
     rw [hf] at this; cases this
   refine ⟨⟨?_, ?_⟩, ?_⟩
-  · show ((s.peers ++ [_]).map (·.conn)).Nodup
+  · show ((s.peers ++ [_]).map (fun q : Peer => q.conn)).Nodup
     rw [List.map_append, List.nodup_append]
     refine ⟨h.f.nodup, by simp, ?_⟩
     intro a ha b hb
@@ -363,8 +375,16 @@ theorem step_inv (cfg : Config) (s : State) (op : Op) (h : Inv cfg s) :
     have hxs : x.st = s ∧ x.out = [] := by
       cases op with
       | connect c ws il a => cases hx
-      | message c msg o => unfold opCtx at hx; split at hx <;> cases hx; exact ⟨rfl, rfl⟩
-      | disconnect c o => unfold opCtx at hx; split at hx <;> cases hx; exact ⟨rfl, rfl⟩
+      | message c msg o =>
+        simp only [opCtx] at hx
+        split at hx
+        · cases hx
+        · cases hx; exact ⟨rfl, rfl⟩
+      | disconnect c o =>
+        simp only [opCtx] at hx
+        split at hx
+        · cases hx
+        · cases hx; exact ⟨rfl, rfl⟩
       | timerFire t o => cases hx; exact ⟨rfl, rfl⟩
     obtain ⟨i1, i2, new, e, q⟩ := chain_lift (cfg := cfg) (Inv cfg) (fun u => J cfg u.pre.st (u.decl cfg))
       (fun u hu => unit_inv cfg u hu) hch (hxs.1 ▸ h)
